@@ -71,8 +71,13 @@ V_LEVELS = (1, 3, 6)           # head, mid, foot
 
 # cell menu.  P = Panel("x") and T = 1x1 Table, both drawn with the DOUBLE box so
 # that their characters never collide with the boxes of the table under test.
-PLAIN = ["a", "ab cd", "あい", "a\nbb c", "", "abcdefgh"]
+# The unbroken runs of double-width characters make a fold column break wide characters
+# over >=3 lines at odd as well as even text widths (a line that *starts* with a wide
+# character is a code path of its own in chop_cells); "aあいうえお" shifts the parity.
+PLAIN = ["a", "あいうえお", "ab cd", "aあいうえお", "あい", "a\nbb c", "", "abcdefgh"]
 MENU = PLAIN + ["P", "T"]
+# family A enumerates every filling; shapes with >=3 cells draw from this reduced menu
+A_MENU = ["a", "あいうえお", "ab cd", "aあいうえお", "abcdefgh", "P"]
 NESTED_NEED = 5
 T_CHARS = "╔═══╗║y║╚═══╝"
 P_RE = re.compile(r"^╔(═*)╗║x║╚(═*)╝$")
@@ -657,7 +662,7 @@ def plan(tier, seed):
         for i in range(parts):
             shards.append({"fam": "O", "n": n, "rows": rows, "off": off, "bo": bo, "k": k, "i": i, "parts": parts})
     # family A: every filling of small tables
-    for n, rows, parts in ((1, 1, 1), (2, 1, 1), (3, 1, 8), (1, 2, 1)):
+    for n, rows, parts in ((1, 1, 1), (2, 1, 2), (3, 1, 6), (1, 2, 2)):
         for i in range(parts):
             shards.append({"fam": "A", "n": n, "rows": rows, "i": i, "parts": parts})
     if tier == "thorough":
@@ -707,7 +712,7 @@ def _cases(sh, tier):
                 idx += 1
     elif fam == "A":
         n, nrows = sh["n"], sh["rows"]
-        menu = MENU if nrows == 1 or n == 1 else PLAIN
+        menu = MENU if n * nrows <= 2 else A_MENU
         for idx, flat in enumerate(itertools.product(menu, repeat=n * nrows)):
             if idx % sh["parts"] != sh["i"]:
                 continue
@@ -771,14 +776,15 @@ def describe(tier, seed, res):
         "rule": "family O (columns x rows, filling offset, column default overflow, deviation bound): %s. A filling puts "
                 "menu %r, rotated by the offset, row-major into the cells. A deviation is one non-default table option "
                 "(%s) or one non-default option of one column (%s); a ratio deviation switches expand on; table width = "
-                "struct_min+3. All sets of <=k deviations are enumerated. Family A: every filling of the 1x1, 2x1, 3x1 "
-                "(columns x rows) and 1x2 tables over the full menu%s x 5 table option vectors x {ellipsis, fold}%s. "
+                "struct_min+3. All sets of <=k deviations are enumerated. Family A: every filling of the 1x1, 2x1 and 1x2 "
+                "(columns x rows) tables over the full menu and of the 3x1 table%s over the reduced menu %r x 5 table "
+                "option vectors x {ellipsis, fold}%s. "
                 "Every console width in [struct_min, struct_min+10] + {40, 80} (tables with a fixed width: console widths "
                 "width-1, width, width+1, width+7, 80). A case is non-trivial when the expansion clause or an exact "
                 "fold-content clause was judged or some row needed more than one line; distinct = distinct outcome "
                 "signatures (box kind, columns, rows, slack class, clauses judged, border lines, wrapped, ample, title)."
                 % (utxt, MENU, ", ".join(a for a, _ in T_ATOMS), ", ".join(a for a, _ in C_ATOMS),
-                   " and of 2x2 tables over the 6 plain entries" if tier == "thorough" else "",
+                   " and the 2x2 table" if tier == "thorough" else "", A_MENU,
                    "; family B: 6 columns x 8 rows x 20 option vectors x 2 fillings x {ellipsis, fold}" if tier == "thorough"
                    else "; plus rotating slice %d of %d of the three-deviation vectors on the 2x2 and 3x1 shapes "
                         "(fold, offset 0)" % (seed % SLICES, SLICES)),
